@@ -256,6 +256,16 @@ Theorem C18_parse_next_chunking_independent :
 Proof. exact parse_next_chunking_independent. Qed.
 Print Assumptions C18_parse_next_chunking_independent.
 
+(** SETTINGS rules of parseSettingsFrame: a payload of (identifier, value) pairs is accepted iff no
+    identifier repeats and the boolean settings (ENABLE_CONNECT_PROTOCOL, H3_DATAGRAM) carry 0 or
+    1; a frame longer than 8 KiB is rejected before anything is read. *)
+Theorem C18_settings_rules :
+  (forall ps, Forall pair_ok ps ->
+     ((exists fr, settings_payload (enc_pairs ps) = inr fr) <-> (NoDup (map fst ps) /\ bools_valid ps))) /\
+  (forall (s : src) (l : Z), 8192 < l -> parse_settings s l = (inl ESettingsSize, s)).
+Proof. exact settings_rules. Qed.
+Print Assumptions C18_settings_rules.
+
 (** SETTINGS and GOAWAY through ParseNext, with their values: an accepted SETTINGS frame yields
     exactly MAX_FIELD_SECTION_SIZE (or -1), the two booleans, and the unknown settings in order;
     a GOAWAY frame yields the stream ID when its length is the length of the varint, else the
